@@ -264,6 +264,13 @@ def _unary(name, pyfn):
             return out.view(SArr)
         if isinstance(x, (list, tuple)) and _has_sym(x):
             return f(array(x, dtype=float))
+        if T.ctx() is not None and name != 'floor' and not a and not k:
+            # under verification numeric constants stay exact: sin/cos/arccos/sqrt of a float constant is the
+            # real-number value of that constant (an atom), not its IEEE rounding
+            if isinstance(x, (float, int, _np.floating, _np.integer)) and not isinstance(x, (bool, _np.bool_)):
+                return getattr(SR.const(x), name)()
+            if isinstance(x, _np.ndarray) and x.dtype.kind in 'fiu' and x.size <= 4096:
+                return f(S(x))
         return pyfn(x, *a, **k)
     f.__name__ = name
     return f
